@@ -108,15 +108,19 @@ pub fn build(ctl: &'static Ctrl, params: &Value) -> Instance {
     actors.push(kernel_actor("kp", "p"));
     actors.push(kernel_actor("kq", "p")); // a second slot: the kernel side of the previous round may still be at work
     actors.push(passive_actor("tm"));
+    let first_only = params["unpark_first_only"].as_bool().unwrap_or(false);
     for u in 0..nunparkers {
         let sh3 = sh.clone();
         let kind3 = kind.clone();
         actors.push(actor(&format!("u{}", u + 1), unparker_co, move || {
             for _ in 0..unparks_each {
                 may::verif::pt("pk.unpark", 0, 0, 0);
-                let i = sh3.cur.load(SeqCst);
+                let mut i = sh3.cur.load(SeqCst);
                 if i == usize::MAX {
                     continue;
+                }
+                if first_only {
+                    i = 0; // always the first round's blocker (CancelReg.tla: the waker of the first call)
                 }
                 if kind3 == "blocker" {
                     let b = sh3.rounds.lock().unwrap()[i].blocker.clone().unwrap();
@@ -214,9 +218,17 @@ pub fn build(ctl: &'static Ctrl, params: &Value) -> Instance {
         timer_actor: Some("tm".to_string()),
         holds: if innocent {
             vec![Hold { actor: "d".into(), site: "pk.innocent".into(), nth: 1, until_actor: "p".into(), until_site: "never".into(), until_n: 1 }]
+        } else if first_only {
+            // the unparker starts once the first round exists
+            vec![Hold { actor: "u1".into(), site: "pk.unpark".into(), nth: 1, until_actor: "p".into(), until_site: "pk.round".into(), until_n: 1 }]
         } else {
             vec![]
         },
+        // the coroutine may be scheduled again while the kernel side of its previous yield is still at work (the
+        // timer, an unparker or a canceller resumed it on another thread): Park guards that window with
+        // `wait_kernel`, Sleep has nothing
+        no_holdback: params["no_holdback"].as_bool().unwrap_or(false),
+        kernel_must_not_outlive: params["must_not_outlive"].as_bool().unwrap_or(false),
         ..Default::default()
     };
     let sh4 = sh.clone();
